@@ -103,6 +103,50 @@ func vhgCloseVsRename(wga, dir, sameDir bool) map[string]interface{} {
 	return s.gatedRecord("gated-close-rename", 2, replied)
 }
 
+// vhgRenameVsDisconnect: a same-directory rename of /n1 parks inside the Renamed callback of connection 0's
+// fid on /n1; connection 0 is dropped meanwhile (its stop() takes the table reference away), so the
+// rename's own temporary reference becomes the last one.  The rename has to be answered.
+func vhgRenameVsDisconnect(wga, dir bool) map[string]interface{} {
+	s := vhsNewSess(wga, nil)
+	s.exec(vhsOp{K: "attach", A: []int{0, 0}})
+	s.exec(vhsOp{K: "attach", A: []int{1, 0}})
+	if dir {
+		s.exec(vhsOp{K: "mk", A: []int{0, 1, 0, 1}})
+	} else {
+		s.exec(vhsOp{K: "mk", A: []int{1, 1, 0, 1}})
+	}
+	s.exec(vhsOp{K: "walk", A: []int{0, 0, 1}, Names: []int{1}})
+	s.exec(vhsOp{K: "clunk", A: []int{0, 0}}) // connection 0 keeps only the fid on /n1
+	s.fs.mu.Lock()
+	h := s.fs.nextH - 1
+	ent, rel := make(chan struct{}), make(chan struct{})
+	s.fs.gateKey, s.fs.gateEntered, s.fs.gateRelease = [3]int{10, h, 0}, ent, rel
+	s.fs.mu.Unlock()
+	c1 := s.conn(1)
+	s.sendOnly(c1, &trenameat{OldDirectory: 0, OldName: vhfsName(1), NewDirectory: 0, NewName: vhfsName(3)})
+	replied := true
+	select {
+	case <-ent:
+		s.stopConn(0, nil) // waits for Handle of connection 0 to return
+		close(rel)
+	case <-time.After(5 * time.Second):
+		close(rel)
+		replied = false
+	}
+	// blocked is inferred by timeout only in the direction "must proceed, did not": three waits of one second
+	ok := false
+	for i := 0; i < 3 && !ok; i++ {
+		_, ok = s.recvOnly(c1, time.Second)
+	}
+	replied = replied && ok
+	np := 0
+	if ok { // a wedged server is reported through [returned], not by probing it
+		s.exec(vhsOp{K: "getattr", A: []int{1, 0}})
+		np = 1
+	}
+	return s.gatedRecord("gated-rename-disconnect", np, replied)
+}
+
 // vhgUnlinkVsWalk: Twalk root->n1 parks in the backend walk; Tunlinkat(root, n1) is issued meanwhile.
 func vhgUnlinkVsWalk(wga, dir bool) map[string]interface{} {
 	s := vhsNewSess(wga, nil)
